@@ -155,6 +155,11 @@ class ParameterParser(Logger):
             self.critical('Binning must be defined for SNR instrument')
             raise ValueError('Binning must be defined for SNR instrument')
         else:
+            unknown = [k for k in config if k not in ('instrument', 'SNR')]
+            if unknown:
+                self.error('SNR instrument does not have parameter(s) %s',
+                           unknown)
+                raise KeyError(unknown)
             SNR = 10
             if 'SNR' in config:
                 SNR = config['SNR']
@@ -218,6 +223,13 @@ class ParameterParser(Logger):
         config = self._raw_config.dict()
         if 'Observation' in config:
             observation_config = config['Observation']
+            file_keys = ('lightcurve', 'observed_spectrum',
+                         'taurex_spectrum', 'iraclis_spectrum')
+            if any(k in observation_config for k in file_keys) and \
+                    len(observation_config) > 1:
+                self.error('[Observation] takes exactly one of %s, got %s',
+                           file_keys, list(observation_config))
+                raise KeyError(list(observation_config))
             if 'lightcurve' in observation_config:
                 from taurex.data.spectrum.lightcurve import ObservedLightCurve
                 return ObservedLightCurve(observation_config['lightcurve'])
